@@ -4,9 +4,9 @@
     the GENERATED preprocessor (GenPrep.v), which calls the GENERATED lexer (GenLexer.v); [gparse_with_eq] (builder
     lexprep) says it computes exactly [parse_view (parse_with ..)] for every program, text and fuel.  Hence: *)
 From Coq Require Import List Arith NArith Bool String Lia.
-From TG.Gen Require Import GenTokens GenLexTables GenGrammar GenGrammarCert.
+From TG.Gen Require Import GenTokens GenLexTables GenGrammar GenGrammarCert GenLibGlue.
 From TG.Model Require Import Chars Lexer Prep Tree ParserPrims ParserMonad GInterp.
-From TG.Proofs Require Import LexBasics ParserTile GTile GenParserEq ParserMsgs ParserTop.
+From TG.Proofs Require Import LexBasics ParserTile GTile GenParserEq ParserMsgs ParserTop GenLibGlueEq.
 Import ListNotations.
 
 (** a SyntaxError as the source rendering has it: (start, end, message string) *)
@@ -62,3 +62,30 @@ Proof.
   pose proof (parse_with_mono _ _ _ _ _ Q ltac:(discriminate) (Nat.max fuel fuel') (Nat.le_max_r _ _)) as Q'.
   congruence.
 Qed.
+
+(** * `syntax::parse` itself, as tools/translate/t_libglue.py renders it from crates/syntax/src/lib.rs (gen/GenLibGlue.v):
+    Lexer::new, PreProcessor::new, Parser::new, grammar::source_file (the regenerated grammar program), Parser::finish,
+    `Parse { green_node, errors }`.  [GenLibGlueEq.glib_parse_eq]: it IS [gparse_with]; hence the three theorems. *)
+Definition lib_parse (fuel : nat) (txt : text) : gparse_out :=
+  glib_parse (fun g => ggexec fuel grammar_prog (ECall grammar_entry None) [] g) txt.
+
+Theorem lib_parse_is_gparse : forall fuel txt, lib_parse fuel txt = gparse_with fuel grammar_prog grammar_entry txt.
+Proof. intros. apply glib_parse_eq. Qed.
+
+Theorem lib_parse_lossless : forall fuel txt t es,
+  lib_parse fuel txt = GParseOk t es ->
+  lossless txt t /\ glib_syntax_node (mk_parse t es) = (0%N, t) /\ glib_errors (mk_parse t es) = es.
+Proof.
+  intros fuel txt t es H. rewrite lib_parse_is_gparse in H. split; [exact (source_lossless _ _ _ _ H)|].
+  split; reflexivity.
+Qed.
+
+Theorem lib_parse_total : forall txt, exists fuel t es,
+  lib_parse fuel txt = GParseOk t es /\ lossless txt t /\ Forall (serror_wf txt) es.
+Proof.
+  intros txt. destruct (source_total txt) as (fuel & t & es & P & R). exists fuel, t, es.
+  rewrite lib_parse_is_gparse. split; [exact P|exact R].
+Qed.
+
+Theorem lib_parse_never_panics : forall fuel txt, lib_parse fuel txt <> GParsePanic.
+Proof. intros fuel txt. rewrite lib_parse_is_gparse. apply source_never_panics. Qed.
